@@ -815,3 +815,22 @@ Example trunc_rounded_quotient_nonvacuous : 58 / 1 = (29 * 200) / 100.
 Proof.
   apply (trunc_rounded_quotient (29 * 200) 100 58 1); try lia; intros k Hk H; lia.
 Qed.
+
+(* ------------------------------------------------------------------ the soft cursor and the scaled copies *)
+(* rfbShowCursor paints the cursor box and refreshes it in every scaled copy; rfbHideCursor restores the
+   box and refreshes it again (for EVERY client, scaled or not): afterwards each scaled copy is again the
+   box filter of the cursor-free framebuffer *)
+Theorem scaled_copy_cursor_free : forall fmt g src painted dst d1 d2 W H w' h' x y w h,
+  1 <= w' -> 0 <= W -> 1 <= h' -> 0 <= H ->
+  geom_ok g W H w' h' x y w h ->
+  Conv fmt src W H w' h' dst ->
+  (forall s t, ~ (x <= s < x + w /\ y <= t < y + h) -> fb_get painted s t = fb_get src s t) ->
+  update_rect true fmt g painted dst = Some d1 ->       (* refresh in rfbShowCursor *)
+  update_rect true fmt g src d1 = Some d2 ->            (* refresh in rfbHideCursor *)
+  Conv fmt src W H w' h' d2.
+Proof.
+  intros fmt g src painted dst d1 d2 W H w' h' x y w h Hw HW Hh HH G C Same U1 U2.
+  assert (C1 : Conv fmt painted W H w' h' d1) by (eapply converges_step; eauto).
+  eapply (converges_step fmt g painted src d1 d2); eauto.
+  intros s t Out. symmetry. apply Same. exact Out.
+Qed.
